@@ -9,10 +9,11 @@ namespace Gms.MemTableRun
 open Gms.Proto Gms.MemTable Gms.MemTableProto
 
 /-- Region of one statement on pre-state `t` ("-" when Impl model and Spec agree, "?" when they
-differ outside every named region). -/
+differ outside every named region). The former region `pk_print_collision` was repaired
+(`Gms.C14.key_injective`, `Gms.C13.keyInj_typed`) and is not named any more: a statement that still
+disagrees because of colliding printed keys gets "?" and surfaces as a violation. -/
 def stmtRegion (counts : Bool) (sch : Schema) (t : List Row) (s : Stmt) (inexact differ : Bool) : String :=
   if !differ then "-"
-  else if regionPrintCollision sch t s then "pk_print_collision"
   else if inexact then "unique_check_ignores_pending_edits"
   else if counts && regionReplaceMulti sch t s then "replace_multi_delete_count"
   else if regionPrefixMultibyte sch t s then "prefix_bytes_vs_chars"
